@@ -574,7 +574,9 @@ func consumeDisplayString(s string) (consumed, rest string, ok bool) {
 		runeLen++
 		if utf8.FullRune(lastRune[:runeLen]) {
 			r, s := utf8.DecodeRune(lastRune[:runeLen])
-			if r == utf8.RuneError {
+			// DecodeRune reports an invalid encoding as (RuneError, 1); a
+			// valid encoding of U+FFFD has size 3 and must be accepted.
+			if r == utf8.RuneError && s == 1 {
 				return false
 			}
 			copy(lastRune[:], lastRune[s:runeLen])
